@@ -148,6 +148,12 @@ pub fn build(case: &Case, ctx: &mut CaseCtx) -> Built {
                             let m: CosmosMsg<Empty> = BankMsg::Send { to_address: sink.to_string(), amount: vec![coin(2, "ucosm")] }.into();
                             must(exec(&mut d, &cands[s], ExecuteMsg::Execute { msgs: vec![m] }), "subkeys partial spend");
                         }
+                        // some subkeys use their allowance up to the last coin: the emptied entry stays an entry
+                        if s % 11 == 8 && s % 3 != 0 && s % 5 != 0 && s % 7 != 0 {
+                            let m: CosmosMsg<Empty> = BankMsg::Send { to_address: sink.to_string(), amount: vec![coin(10 + s as u128, "ucosm")] }.into();
+                            must(exec(&mut d, &cands[s], ExecuteMsg::Execute { msgs: vec![m] }), "subkeys spend everything");
+                            ctx.count("subkeys_allowance_used_up");
+                        }
                     }
                 }
             }
